@@ -222,6 +222,13 @@ where
         );
         let mac = (approx::abs_diff_eq!(ta, tb), approx::relative_eq!(ta, tb), approx::ulps_eq!(ta, tb));
         ensure_r!(dflt == mac, "default-tolerances", "{} {}: macro forms with default tolerances disagree with the explicit call", T::NAME, what);
+        // the negated entry points (trait methods and macros) are the negations
+        let ne = (ta.abs_diff_ne(&tb, eps), ta.relative_ne(&tb, eps, rel), ta.ulps_ne(&tb, tiny, ulps));
+        ensure_r!(ne == (!got.0, !got.1, !got.2), "ne-is-not-eq", "{} {}: (abs_diff_ne, relative_ne, ulps_ne) = {:?} but the _eq relations are {:?}; a = {:?}, b = {:?}", T::NAME, what, ne, got, a, b);
+        let mac_ne = (approx::abs_diff_ne!(ta, tb), approx::relative_ne!(ta, tb), approx::ulps_ne!(ta, tb));
+        ensure_r!(mac_ne == (!mac.0, !mac.1, !mac.2), "ne-is-not-eq", "{} {}: the _ne! macros with default tolerances are {:?} but the _eq! macros are {:?}", T::NAME, what, mac_ne, mac);
+        let mac_tol = (approx::abs_diff_eq!(ta, tb, epsilon = eps), approx::relative_eq!(ta, tb, epsilon = eps, max_relative = rel), approx::ulps_eq!(ta, tb, epsilon = tiny, max_ulps = ulps));
+        ensure_r!(mac_tol == got, "macro-tolerances", "{} {}: macro forms with explicit tolerances {:?} disagree with the method calls {:?}", T::NAME, what, mac_tol, got);
         Ok((want_abs, want_rel, want_ulp))
     };
     let h = F::of(1.0 / 1024.0);
